@@ -1,13 +1,19 @@
 package pipe
 
 import (
+	"bufio"
+	"bytes"
 	"encoding/json"
 	"fmt"
 	"math/rand/v2"
+	"net"
 	"os"
 	"path/filepath"
 	"sort"
 	"time"
+
+	"github.com/bluenviron/gortsplib/v5/pkg/base"
+	"github.com/bluenviron/gortsplib/v5/pkg/conn"
 
 	"verifharness/corr"
 )
@@ -172,6 +178,9 @@ func genScenario(rng *rand.Rand, n int, allTransports bool) *Scenario {
 		if sp.Transport == "tcp" && !sc.TLS && rng.IntN(4) == 0 {
 			sp.Raw = true
 			sp.Chans = genChans(rng, len(sp.Medias))
+			if rng.IntN(2) == 0 {
+				sp.KeepaliveUs = 100 + rng.IntN(900)
+			}
 		}
 		sc.Readers = append(sc.Readers, sp)
 	}
@@ -268,6 +277,8 @@ func runScenario(c *corr.Ctx, sc *Scenario, name string, st *runStats) {
 		fmt.Fprintf(os.Stderr, "-- %s took %v (write phase %v)\n", name, time.Since(tStart).Round(time.Millisecond), h.tWrite.Round(time.Millisecond))
 	}
 	if err != nil {
+		// an operation failed: if the byte stream was corrupted or a message was written in pieces, that is why
+		h.checkWire(c)
 		st.infra++
 		c.Dist("infra-error")
 		if st.infra <= 5 {
@@ -350,10 +361,19 @@ func runScenario(c *corr.Ctx, sc *Scenario, name string, st *runStats) {
 		c.Dist("arbitrary-seq")
 	}
 	c.DistN("packets-written", len(h.writes))
+	for j, w := range h.writes {
+		if w.err != nil && j < len(h.pk) && h.pk[j].mayErr {
+			c.Dist("write-over-max-refused")
+		}
+	}
 	for _, rd := range h.readers {
 		c.Dist("reader:" + rd.spec.Transport)
 		if rd.spec.Raw {
 			c.Dist("reader:raw-channels")
+		}
+		if rd.raw != nil {
+			c.DistN("keepalives-sent", int(rd.raw.kaSent.Load()))
+			c.DistN("keepalives-answered", int(rd.raw.kaAnsw.Load()))
 		}
 		c.DistN("callbacks", len(rd.recs))
 		for _, ob := range rd.ctl {
@@ -455,6 +475,77 @@ func reorderScenario(seed uint64) *Scenario {
 		}}
 }
 
+// topSizes: every other write has a total RTP size in [MaxPacketSize-16, MaxPacketSize+4] (payload
+// unique per write), the others are small: a write either returns an error or the packet arrives intact
+// at every reader, and the packets after it arrive too.  Secure scenarios cross the SRTP overhead.
+func topSizes(seed uint64, tls bool, maxPkt int, relay string, transports ...string) *Scenario {
+	plan := []Step{{At: 0, Op: "play"}}
+	sc := &Scenario{Seed: seed, Mode: "exact", TLS: tls, Cap: 256, MaxPkt: maxPkt, Medias: [][]int{{96}, {97, 98}}, N: 420,
+		Pace: 2, SizeTop: true, Relay: relay, PubCap: 256}
+	for i, tr := range transports {
+		ms := []int{0, 1}
+		if i%2 == 1 {
+			ms = []int{1, 0}
+		}
+		sc.Readers = append(sc.Readers, ReaderSpec{Transport: tr, Medias: ms, Plan: plan})
+	}
+	return sc
+}
+
+// countingConn counts the Write calls pkg/conn makes for one message.
+type countingConn struct {
+	net.Conn
+	calls int
+	buf   bytes.Buffer
+}
+
+func (c *countingConn) Write(b []byte) (int, error) {
+	c.calls++
+	return c.buf.Write(b)
+}
+
+// probeConnWrites (deterministic): conn.WriteInterleavedFrame / WriteResponse / WriteRequest hand one
+// complete message to exactly one Write call.
+func probeConnWrites(c *corr.Ctx) {
+	check := func(what string, size int, write func(cn *conn.Conn) error, want []byte) {
+		cc := &countingConn{}
+		cn := conn.NewConn(bufio.NewReader(bytes.NewReader(nil)), cc)
+		err := write(cn)
+		c.CountOnly(fmt.Sprintf("probe/%s/%d", what, size), true)
+		if err != nil || cc.calls != 1 || !bytes.Equal(cc.buf.Bytes(), want) {
+			c.Violate(corr.Violation{Property: "C01", Key: "c01-split-write", Where: "pkg/conn",
+				Clause: "every interleaved frame / response / request is handed to the connection in one Write (the media writer and the response writer share it)",
+				Input:  map[string]any{"probe": what, "payload_bytes": size},
+				Detail: fmt.Sprintf("%s with %d payload bytes: %d Write calls, %d of %d bytes, error %v", what, size, cc.calls, cc.buf.Len(), len(want), err)})
+		}
+	}
+	for _, n := range []int{0, 1, 2, 100, 1460, 1472, 65535} {
+		pl := bytes.Repeat([]byte{0xa5}, n)
+		fr := &base.InterleavedFrame{Channel: 6, Payload: pl}
+		want, _ := fr.Marshal()
+		check("WriteInterleavedFrame", n, func(cn *conn.Conn) error { return cn.WriteInterleavedFrame(fr, make([]byte, n+4)) }, want)
+		res := &base.Response{StatusCode: base.StatusOK, Header: base.Header{"CSeq": base.HeaderValue{"7"}}, Body: pl}
+		want, _ = res.Marshal()
+		check("WriteResponse", n, func(cn *conn.Conn) error { return cn.WriteResponse(res) }, want)
+		u, _ := base.ParseURL("rtsp://127.0.0.1:8554/s")
+		req := &base.Request{Method: base.GetParameter, URL: u, Header: base.Header{"CSeq": base.HeaderValue{"7"}}, Body: pl}
+		want, _ = req.Marshal()
+		check("WriteRequest", n, func(cn *conn.Conn) error { return cn.WriteRequest(req) }, want)
+	}
+}
+
+// keepaliveStorm: hand-written TCP readers fire OPTIONS / GET_PARAMETER every few hundred µs while
+// thousands of packets are streamed to them, and parse the byte stream strictly.
+func keepaliveStorm(seed uint64, n int) *Scenario {
+	return &Scenario{Seed: seed, Mode: "racy", Cap: 256, Medias: [][]int{{96}, {97, 98}}, N: n, Pace: 1, NoModel: n > 10000,
+		Readers: []ReaderSpec{
+			{Transport: "tcp", Raw: true, Medias: []int{0, 1}, Chans: []int{-1, -1}, KeepaliveUs: 150, Plan: []Step{{At: 0, Op: "play"}}},
+			{Transport: "tcp", Raw: true, Medias: []int{1, 0}, Chans: []int{3, -1}, KeepaliveUs: 400,
+				Plan: []Step{{At: 0, Op: "play"}, {At: n / 4, Op: "replay"}, {At: n / 2, Op: "pause"}, {At: n/2 + n/10, Op: "play"}}},
+			{Transport: "tcp", Medias: []int{0, 1}, Plan: []Step{{At: 0, Op: "play"}}},
+		}}
+}
+
 // replayScenario: PLAY again while playing, PAUSE → PLAY → PLAY, PLAY with Range - delivery goes on.
 func replayScenario(seed uint64, tls bool) *Scenario {
 	sc := &Scenario{Seed: seed, Mode: "exact", TLS: tls, Cap: 64, Medias: [][]int{{96}, {97, 98}}, N: 600, Pace: 2,
@@ -517,6 +608,8 @@ func Run(c *corr.Ctx) {
 		}
 	}
 
+	probeConnWrites(c)
+
 	// boundary sweep: every payload size, per transport
 	sweeps := []struct {
 		tls bool
@@ -535,6 +628,19 @@ func Run(c *corr.Ctx) {
 
 	for i, sc := range channelScenarios(c.Rng.Uint64()) {
 		runScenario(c, sc, fmt.Sprintf("channels/%d", i), st)
+	}
+	runScenario(c, topSizes(c.Rng.Uint64(), true, 0, "", "tcp", "udp"), "top-sizes/tls", st)
+	runScenario(c, topSizes(c.Rng.Uint64(), true, 900, "", "tcp", "udp"), "top-sizes/tls-900", st)
+	runScenario(c, topSizes(c.Rng.Uint64(), false, 700, "", "tcp", "udp"), "top-sizes/plain-700", st)
+	runScenario(c, topSizes(c.Rng.Uint64(), true, 1000, "tcp", "tcp", "udp"), "top-sizes/tls-relay-tcp", st)
+	if !c.Quick() {
+		runScenario(c, topSizes(c.Rng.Uint64(), true, 0, "udp", "tcp", "udp"), "top-sizes/tls-relay-udp", st)
+		runScenario(c, topSizes(c.Rng.Uint64(), true, 600, "", "http", "ws"), "top-sizes/tls-tunnels", st)
+		runScenario(c, topSizes(c.Rng.Uint64(), false, 0, "tcp", "http", "tcp"), "top-sizes/plain-relay", st)
+	}
+	runScenario(c, keepaliveStorm(c.Rng.Uint64(), c.N(4000, 10000)), "keepalive-storm", st)
+	if !c.Quick() {
+		runScenario(c, keepaliveStorm(c.Rng.Uint64(), 40000), "keepalive-storm-40k", st)
 	}
 	runScenario(c, reorderScenario(c.Rng.Uint64()), "udp-reorder-both-hops", st)
 	runScenario(c, replayScenario(c.Rng.Uint64(), false), "play-again", st)
